@@ -277,19 +277,19 @@ func (c08Driver) Gen(r *Rand, tier string) []json.RawMessage {
 		}
 		return res
 	}
-	// quick: every history of at most 2 versions, a sample of the longer ones, some raw ones
+	// quick: every history of at most 3 versions, a sample of those with 4, some raw ones
 	var long []c08Input
 	for _, in := range all {
-		if len(in.Versions) <= 2 {
+		if len(in.Versions) <= 3 {
 			res = append(res, mustJSON(in))
 		} else {
 			long = append(long, in)
 		}
 	}
-	for i := 0; i < 150; i++ {
+	for i := 0; i < 350; i++ {
 		res = append(res, mustJSON(long[r.Intn(len(long))]))
 	}
-	for i := 0; i < 40; i++ {
+	for i := 0; i < 100; i++ {
 		res = append(res, mustJSON(c08RawHistory(r)))
 	}
 	return res
@@ -641,7 +641,15 @@ func (c08Driver) Run(raw json.RawMessage) Case {
 		}
 	}
 	c08Keys()
-	dir, err := os.MkdirTemp("", "verif-c08-")
+	// go-git syncs every loose object and ref: on a disk-backed /tmp that is 5x slower than on tmpfs
+	base := ""
+	if st, err := os.Stat("/dev/shm"); err == nil && st.IsDir() && os.Getenv("VERIF_C08_DISK") == "" {
+		base = "/dev/shm"
+	}
+	dir, err := os.MkdirTemp(base, "verif-c08-")
+	if err != nil {
+		dir, err = os.MkdirTemp("", "verif-c08-")
+	}
 	if err != nil {
 		panic(err)
 	}
